@@ -353,6 +353,16 @@ func nspClients(t *testing.T, h *H) {
 						mu.Unlock()
 						ack("ack:" + nn + ":" + tag)
 					})
+					// the same with a binary attachment in the event and in the acknowledgement (BINARY_EVENT / BINARY_ACK headers)
+					s.OnEvent("upb", func(tag string, b sio.Binary, ack func(string, sio.Binary)) {
+						mu.Lock()
+						if string(b) != tag {
+							viol = append(viol, fmt.Sprintf("namespace %q: attachment %q of event %q", nn, b, tag))
+						}
+						srvGot[nn] = append(srvGot[nn], tag)
+						mu.Unlock()
+						ack("ack:"+nn+":"+tag, sio.Binary(tag))
+					})
 					s.OnDisconnect(func(sio.Reason) { mu.Lock(); disc[nn]++; mu.Unlock() })
 				})
 			}
@@ -372,10 +382,15 @@ func nspClients(t *testing.T, h *H) {
 				c := m.Socket(name, nil)
 				socks[nn] = c
 				c.OnEvent("down", func(tag string) { mu.Lock(); cliGot[nn] = append(cliGot[nn], tag); mu.Unlock() })
+				c.OnEvent("downb", func(tag string, b sio.Binary) { mu.Lock(); cliGot[nn] = append(cliGot[nn], tag); mu.Unlock() })
 				c.OnConnect(func() {
 					for j := 0; j < 3; j++ {
 						tag := fmt.Sprintf("%s#%d", nn, j)
-						c.Emit("up", tag, func(reply string) { mu.Lock(); ackGot[nn] = append(ackGot[nn], reply); mu.Unlock() })
+						if (i+j)%2 == 0 {
+							c.Emit("upb", tag, sio.Binary(tag), func(reply string, b sio.Binary) { mu.Lock(); ackGot[nn] = append(ackGot[nn], reply); mu.Unlock() })
+						} else {
+							c.Emit("up", tag, func(reply string) { mu.Lock(); ackGot[nn] = append(ackGot[nn], reply); mu.Unlock() })
+						}
 					}
 				})
 				c.Connect()
@@ -383,7 +398,11 @@ func nspClients(t *testing.T, h *H) {
 			time.Sleep(2 * time.Second)
 			// broadcasts: one per namespace, tagged
 			for _, name := range chosen {
-				r.server.Of(name).Emit("down", "bc:"+norm(name))
+				if i%2 == 0 {
+					r.server.Of(name).Emit("downb", "bc:"+norm(name), sio.Binary("x"))
+				} else {
+					r.server.Of(name).Emit("down", "bc:"+norm(name))
+				}
 			}
 			time.Sleep(time.Second)
 			// disconnect one namespace (client side or server side): the others stay connected
